@@ -33,6 +33,16 @@ def run(v):
     tcov = run_cmdline_property(v, tfam, None, replay_cfg="MC_GroupLine_replay.cfg", module="MC_GroupLine", signature=cmdline_sig.signature,
                                 trace_module="GroupLineTrace", name="C07t")
     cov = merge_cov(cov, tcov, "alt_tie")
+    # choices between fixed words, one a prefix of another
+    lfam = D.lit_family(SEED + 793, 12 if q else 48, maxlen=3 if q else 4, budget=2500 if q else 25000)
+    lcov = run_cmdline_property(v, lfam, None, replay_cfg="MC_GroupLine_replay.cfg", module="MC_GroupLine", signature=cmdline_sig.signature,
+                                trace_module="GroupLineTrace", name="C07l")
+    cov = merge_cov(cov, lcov, "literals")
+    # branches with short names, several in one item; the choice nested to the right
+    sfam = D.alt_short_family(SEED + 794, 15 if q else 60, maxlen=3 if q else 4, budget=3000 if q else 30000)
+    scov = run_cmdline_property(v, sfam, None, replay_cfg="MC_GroupLine_replay.cfg", module="MC_GroupLine", signature=cmdline_sig.signature,
+                                trace_module="GroupLineTrace", name="C07s")
+    cov = merge_cov(cov, scov, "short_bundles")
     # a repeated choice between adjacent subcommands, some without items of their own
     afam = D.acmd_alt_family(SEED + 792, 8 if q else 32, maxlen=4 if q else 5, budget=3000 if q else 30000)
     acov = run_cmdline_property(v, afam, None, replay_cfg="MC_GroupLine_replay.cfg", module="MC_GroupLine", signature=cmdline_sig.signature,
